@@ -929,8 +929,9 @@ class EventBus:
                     self._on_idle.set()
                 return None
 
-        except (asyncio.CancelledError, RuntimeError, QueueShutDown):
-            # Clean cancellation during shutdown or queue was shut down
+        except (RuntimeError, QueueShutDown):
+            # Queue was shut down or the event loop is closing
+            # (CancelledError must propagate so that cancelling the run loop task actually ends it)
             return None
 
     async def step(
